@@ -79,11 +79,17 @@ func c12Matchers(class string) open_api_models.Matchers {
 		n2, v2 := "b", "x.*"
 		return open_api_models.Matchers{{Name: &n2, Value: &v2, IsEqual: &t, IsRegex: &t}}
 	}
+	if class == "An" { // same name and value as A, only the operator differs
+		return open_api_models.Matchers{{Name: &n, Value: &v, IsEqual: &f, IsRegex: &f}}
+	}
 	return open_api_models.Matchers{{Name: &n, Value: &v, IsEqual: &t, IsRegex: &f}}
 }
 
 func c12Class(ms open_api_models.Matchers) string {
 	if len(ms) == 1 && *ms[0].Name == "a" {
+		if ms[0].IsEqual != nil && !*ms[0].IsEqual {
+			return "An"
+		}
 		return "A"
 	}
 	return "B"
@@ -157,6 +163,7 @@ var c12Alphabet = []string{
 	"advance 1", "advance 2", "advance 3 (retention)",
 	"restart from a snapshot",
 	"edit A start=now (exactly the instant of the call)",
+	"edit A: only the operator of its matcher changes (a=1 <-> a!=1)",
 }
 
 func msRound(t time.Time) time.Time { return t.Truncate(time.Millisecond) }
@@ -221,7 +228,7 @@ func (y *c12Sys) apply(x int) (ok bool, viol, desc string) {
 		if code == 200 {
 			viol, desc = "invalid-silence-accepted", fmt.Sprintf("%s answered 200", c12Alphabet[x])
 		}
-	case 6, 7, 8, 9, 10, 11, 23:
+	case 6, 7, 8, 9, 10, 11, 23, 24:
 		id, ok := y.slot["A"]
 		if !ok {
 			return false, "", ""
@@ -261,6 +268,14 @@ func (y *c12Sys) apply(x int) (ok bool, viol, desc string) {
 			}
 		case 11:
 			class = "B"
+			if end.Before(now) {
+				end = now.Add(2 * c12U)
+			}
+		case 24:
+			class = "An"
+			if rec.match == "An" {
+				class = "A"
+			}
 			if end.Before(now) {
 				end = now.Add(2 * c12U)
 			}
